@@ -149,6 +149,10 @@ type Outcome struct {
 	Trace    []simrt.Step
 	Races    []string
 	WallNS   int64
+	// effects (writes, callbacks, mutating disk operations) counted when the call returned
+	// and at final quiescence: after a nil return nothing more may happen
+	WritesAtReturn, VisitsAtReturn, MutOpsAtReturn int
+	LateEffects                                    string
 }
 
 func errStr(e error) string {
@@ -453,6 +457,10 @@ func execSim(op Op, env *Env) *Outcome {
 			run.Spawn("0", "harness:0:caller", func() {
 				out.Err = invoke(op, wr, rd, root, cb, opts)
 				out.Returned = true
+				out.WritesAtReturn, out.VisitsAtReturn = wr.n, len(cb.visits)
+				if d != nil {
+					out.MutOpsAtReturn = countMut(d.Records())
+				}
 			})
 			run.Loop()
 			// snapshot the task states at final quiescence, before the deferred clean-up of the
@@ -467,6 +475,19 @@ func execSim(op Op, env *Env) *Outcome {
 	}()
 	out.WallNS = time.Since(t0).Nanoseconds()
 	collect(out, rd, wr, cb, d)
+	if out.Returned && out.Err == nil {
+		var late []string
+		if wr.n > out.WritesAtReturn {
+			late = append(late, fmt.Sprintf("%d write(s)", wr.n-out.WritesAtReturn))
+		}
+		if len(cb.visits) > out.VisitsAtReturn {
+			late = append(late, fmt.Sprintf("%d callback(s)", len(cb.visits)-out.VisitsAtReturn))
+		}
+		if m := countMut(out.DiskOps); m > out.MutOpsAtReturn {
+			late = append(late, fmt.Sprintf("%d mutating disk operation(s)", m-out.MutOpsAtReturn))
+		}
+		out.LateEffects = strings.Join(late, ", ")
+	}
 	if run != nil {
 		out.Steps = run.Steps
 		out.StepCap = run.StepCapHit
@@ -597,3 +618,13 @@ func sameErrClass(a, b error) bool { return (a == nil) == (b == nil) }
 
 var _ = bytes.Equal
 var _ = errors.Is
+
+func countMut(ops []simfs.OpRec) int {
+	n := 0
+	for _, o := range ops {
+		if o.Mutating {
+			n++
+		}
+	}
+	return n
+}
